@@ -5,6 +5,7 @@
 import Driver.Codec
 import Driver.TimeRange
 import Driver.Script
+import Driver.RegexRun
 import SlacModel.Display
 import SlacModel.Json
 import SlacModel.JsonText
@@ -152,7 +153,7 @@ def runCall (r : List String) : Option String :=
     let nm := String.ofList (unhex name)
     if (nm == "sort" || nm == "max" || nm == "min") && !Order.safeB (Stdlib.smartVec args) then pure "unmodelled unsafe-order" else
     match builtinFloat o nm with
-    | none => pure "unmodelled"
+    | none => pure (match RegexRun.run nm args with | some res => showNRes res | none => "unmodelled")
     | some f => match f args with
       | none => pure "unmodelled"
       | some res => pure (showNRes res)
